@@ -880,44 +880,6 @@ impl<'a> Planter<'a> {
             *ty = parse_quote!(vp_ret!(#t));
         }
         if !(dropb && has_body) && has_body {
-            // closures
-            {
-                struct CP<'b> {
-                    ord: usize,
-                    fc: &'b FnC,
-                    found: Vec<(usize, String)>,
-                }
-                impl<'b> VisitMut for CP<'b> {
-                    fn visit_expr_mut(&mut self, e: &mut Expr) {
-                        if let Expr::Closure(c) = e {
-                            let ord = self.ord;
-                            self.ord += 1;
-                            // visit nested closures inside the body first (they get later ordinals)
-                            visit_mut::visit_expr_mut(self, &mut c.body);
-                            if let Some(t) = self.fc.closures.get(&ord) {
-                                let body = c.body.clone();
-                                let ph = format_ident!("VPC{}", ord);
-                                self.found.push((ord, t.clone()));
-                                *e = parse_quote!(vp_closure!(#ph, { #body }));
-                            }
-                            return;
-                        }
-                        visit_mut::visit_expr_mut(self, e);
-                    }
-                }
-                let mut cp = CP { ord: 0, fc: &fc, found: vec![] };
-                cp.visit_block_mut(block);
-                let found = cp.found.clone();
-                for (ord, _t) in &fc.closures {
-                    if !found.iter().any(|(o, _)| o == ord) {
-                        self.lost.push(format!("LOST-CLOSURE {} closure {}", key, ord));
-                    }
-                }
-                for (ord, t) in found {
-                    let gid = self.marker(t);
-                    replace_macro_ident(block, "vp_closure", &format!("VPC{}", ord), gid);
-                }
-            }
             // loops
             let mut lp = LoopPlanter { ord: 0, fc: &fc, markers: vec![], used: BTreeSet::new() };
             lp.visit_block_mut(block);
@@ -958,6 +920,44 @@ impl<'a> Planter<'a> {
                 };
                 if !ok {
                     self.lost.push(format!("LOST-ANCHOR {} anchor#{} {} {:?}", key, i, a.pos, a.prefix));
+                }
+            }
+            // closures
+            {
+                struct CP<'b> {
+                    ord: usize,
+                    fc: &'b FnC,
+                    found: Vec<(usize, String)>,
+                }
+                impl<'b> VisitMut for CP<'b> {
+                    fn visit_expr_mut(&mut self, e: &mut Expr) {
+                        if let Expr::Closure(c) = e {
+                            let ord = self.ord;
+                            self.ord += 1;
+                            // visit nested closures inside the body first (they get later ordinals)
+                            visit_mut::visit_expr_mut(self, &mut c.body);
+                            if let Some(t) = self.fc.closures.get(&ord) {
+                                let body = c.body.clone();
+                                let ph = format_ident!("VPC{}", ord);
+                                self.found.push((ord, t.clone()));
+                                *e = parse_quote!(vp_closure!(#ph, { #body }));
+                            }
+                            return;
+                        }
+                        visit_mut::visit_expr_mut(self, e);
+                    }
+                }
+                let mut cp = CP { ord: 0, fc: &fc, found: vec![] };
+                cp.visit_block_mut(block);
+                let found = cp.found.clone();
+                for (ord, _t) in &fc.closures {
+                    if !found.iter().any(|(o, _)| o == ord) {
+                        self.lost.push(format!("LOST-CLOSURE {} closure {}", key, ord));
+                    }
+                }
+                for (ord, t) in found {
+                    let gid = self.marker(t);
+                    replace_macro_ident(block, "vp_closure", &format!("VPC{}", ord), gid);
                 }
             }
         }
@@ -1105,7 +1105,6 @@ struct StmtAnchor {
     done: bool,
 }
 impl VisitMut for StmtAnchor {
-    fn visit_expr_closure_mut(&mut self, _c: &mut ExprClosure) {}
     fn visit_block_mut(&mut self, b: &mut Block) {
         if self.done {
             return;
@@ -1123,7 +1122,9 @@ impl VisitMut for StmtAnchor {
                             b.stmts.insert(i, m);
                         } else {
                             // "after" a tail expression is impossible: report as lost
-                            if i == b.stmts.len() - 1 && matches!(&b.stmts[i], Stmt::Expr(_, None)) {
+                            if i == b.stmts.len() - 1
+                                && matches!(&b.stmts[i], Stmt::Expr(e, None) if !matches!(e, Expr::ForLoop(_) | Expr::While(_) | Expr::Loop(_)))
+                            {
                                 return;
                             }
                             b.stmts.insert(i + 1, m);
@@ -1594,7 +1595,7 @@ fn main() {
             }
         }
         text = format!("{}\n{}", consts_txt, text);
-        if let Some(extra) = contracts.modules.get(module) {
+        if let Some(extra) = contracts.modules.get(if module.is_empty() { "root" } else { module }) {
             text.push_str("\n// ---- ghost text appended from contracts (@module)\n");
             text.push_str(extra);
         }
